@@ -17,6 +17,13 @@ var vfC09Extra = [][2]string{
 	{"GEOMETRYCOLLECTION(POINT(9 9),LINESTRING(0 0,1 1),POLYGON((4 4,6 4,6 6,4 6,4 4)))", "GEOMETRYCOLLECTION(POINT EMPTY,GEOMETRYCOLLECTION(POINT(5 5)))"},
 	{"LINESTRING(0 0,4 0)", "LINESTRING(5 0,9 0)"},                                           // collinear, apart
 	{"POLYGON((0 0,4 0,4 4,0 4,0 0))", "POLYGON((5 0,9 0,9 4,5 4,5 0))"},                     // apart
+	// MultiPolygons with several members whose extreme vertices sit at different ring positions
+	{"MULTIPOLYGON(((0 0,2 0,2 2,0 2,0 0)),((4 0,6 0,6 2,4 2,4 0)),((8 0,12 -3,12 3,8 2,8 0)),((0 5,1 9,-3 7,0 5)))", "POINT(20 20)"},
+	{"MULTIPOLYGON(((0 0,1 0,1 1,0 0)),((3 3,4 3,4 4,3 3)),((6 0,7 -6,9 0,8 5,6 0)),((-5 0,-4 -1,-3 0,-4 6,-5 0)))", "LINESTRING(0 -8,1 -9)"},
+	// holes with an apex on a row that the PointOnSurface scan may pick (diamond shell, centre row through a vertex)
+	{"POLYGON((0 4,4 0,8 4,4 8,0 4),(3 3,5 3,4 6,3 3))", "POINT(4 1)"},
+	{"POLYGON((0 4,4 0,8 4,4 8,0 4),(3 5,4 2,5 5,3 5))", "POINT(4 7)"},
+	{"POLYGON((0 4,4 0,8 4,4 8,0 4),(2 4,3 3,4 4,3 6,2 4),(5 3,6 4,5 6,5 3))", "MULTIPOINT(3 4,1 4)"},
 }
 
 // Intersects and the flags of Distance on concrete operand pairs of every type
